@@ -39,15 +39,31 @@ func init() {
 type scriptConn struct {
 	chunks [][]byte
 	idx    int
-	reads  int
+	reads  int // reads that delivered data or EOF (transient errors not counted)
 	wrote  bytes.Buffer
+	// failBefore[i]: the read that would deliver chunk i first fails once with a timeout, the
+	// way a read deadline expiring in the middle of a frame does; no byte is consumed by it
+	failBefore map[int]bool
+	transient  int
 }
 
+type scriptTimeout struct{}
+
+func (scriptTimeout) Error() string   { return "i/o timeout (scripted)" }
+func (scriptTimeout) Timeout() bool   { return true }
+func (scriptTimeout) Temporary() bool { return true }
+
 func (c *scriptConn) Read(b []byte) (int, error) {
-	c.reads++
 	for c.idx < len(c.chunks) && len(c.chunks[c.idx]) == 0 {
 		c.idx++
 	}
+	if c.failBefore[c.idx] {
+		delete(c.failBefore, c.idx)
+		c.transient++
+
+		return 0, scriptTimeout{}
+	}
+	c.reads++
 	if c.idx >= len(c.chunks) {
 		return 0, io.EOF
 	}
@@ -94,7 +110,7 @@ func cutStream(stream []byte, cuts []int) [][]byte {
 }
 
 // checkSegmentation feeds `stream` cut at `cuts` through STUNConn and compares with the reference.
-func checkSegmentation(rec *sim.Rec, stream []byte, cuts []int, segName string, bufSize int) {
+func checkSegmentation(rec *sim.Rec, stream []byte, cuts []int, segName string, bufSize int, failBefore ...int) {
 	chunks := cutStream(stream, cuts)
 	// chunkEnd[i] = offset of the end of chunk i
 	chunkEnd := make([]int, len(chunks))
@@ -105,7 +121,16 @@ func checkSegmentation(rec *sim.Rec, stream []byte, cuts []int, segName string, 
 	}
 	frames, _, refErr := wire.SplitFrames(stream)
 	sc := &scriptConn{chunks: chunks}
+	if len(failBefore) > 0 {
+		sc.failBefore = map[int]bool{}
+		for _, i := range failBefore {
+			sc.failBefore[i] = true
+		}
+	}
 	conn := proto.NewSTUNConn(sc)
+	// every stream ends with Close, also those that stop in the middle of a frame: whatever a
+	// connection had buffered then must not show up in the next connection's stream
+	defer conn.Close() //nolint:errcheck
 	buf := make([]byte, bufSize)
 	consumed := 0
 	defer func() {
@@ -115,6 +140,15 @@ func checkSegmentation(rec *sim.Rec, stream []byte, cuts []int, segName string, 
 	}()
 	for k := 0; k <= len(frames)+2; k++ {
 		n, _, err := conn.ReadFrom(buf)
+		for tries := 0; err != nil && tries < 4; tries++ {
+			var te scriptTimeout
+			if !errors.As(err, &te) {
+				break
+			}
+			// a timed-out read consumed nothing: the caller reads again and the stream continues
+			rec.Ev("transient-read-errors")
+			n, _, err = conn.ReadFrom(buf)
+		}
 		if err == nil && n == 0 {
 			rec.Violate("framer-spin", fmt.Sprintf("hdr=%x", head(stream[min(consumed, len(stream)):])[:min(4, len(stream)-min(consumed, len(stream)))]), "ReadFrom returned (0, nil) - no progress - at stream offset %d of %x... (%s cuts %v)", consumed, head(stream[min(consumed, len(stream)):]), segName, cuts)
 
@@ -297,7 +331,16 @@ func runC10Stream(t *testing.T, rng *rand.Rand, rec *sim.Rec, tier string, caseN
 			cuts = append(cuts, 1+rng.Intn(max(1, len(stream)-1)))
 		}
 		sortInts(cuts)
-		checkSegmentation(rec, stream, cuts, "random", bufSize)
+		if k%3 == 2 {
+			// the same cuts with one or two reads timing out in between
+			fb := []int{rng.Intn(len(cuts) + 1)}
+			if rng.Intn(2) == 0 {
+				fb = append(fb, rng.Intn(len(cuts)+1))
+			}
+			checkSegmentation(rec, stream, cuts, "random+timeouts", bufSize, fb...)
+		} else {
+			checkSegmentation(rec, stream, cuts, "random", bufSize)
+		}
 		nseg++
 	}
 	rec.EvN("segmentations", nseg)
